@@ -63,6 +63,14 @@ CHECKS = {
    technique="bounded-exhaustive enumeration of UPDATE bodies x callback behaviours x error trees vs a reference RFC 7606 classifier",
    text="The C16 inputs with nil callbacks (nil-vs-error boundary), the grammar set crossed with 8 callback behaviours on the first three invocations, and all error trees up to 6 (quick) / 7 (thorough) nodes for UpdateNotificationFromErr: nil iff consistent, mandatory attributes present and callbacks nil; every callback error kept; decoding stops at the first Notification-class event; strongest class as prescribed; severity walk equals the reference.",
    note="trusted: refmodel/update.go"),
+ "C11": dict(level="fault_enumeration", design="4/C11",
+   technique="exhaustive enumeration of fault histories up to a length, each executed on the real FSM in virtual time; delay-bounded schedule exploration for short histories",
+   text="All histories of length <=3 (quick) / <=4 (thorough) over 12 transport-level faults (refusal, stalled connect, FIN/RST/Cease at three handshake stages, inbound session then FIN) x three (idle-hold, connect-retry) settings x active/passive x both timer semantics, each followed by a well-behaved remote: re-establishment within idle-hold + connect-retry + 1 s of the last fault, idle-hold spacing of refused attempts, redial at connect-retry expiry, immediate redial after an inbound session, no dial by passive peers; dial attempts observed through WithDialerControl in virtual time.",
+   note="trusted: vinstr/vrt virtual clock, vnet dial scripts"),
+ "C12": dict(level="fault_enumeration", design="4/C12",
+   technique="exhaustive enumeration of error / non-damping event / elapsed-time histories on the real code in virtual time vs a reference damping automaton; delay-bounded schedule exploration incl. a two-connection race",
+   text="Every one of 46 protocol-error kinds alone and after an earlier error with timings {asap, 299 s, 301 s}, all histories up to length 4 (quick) / 5 (thorough) over a reduced alphabet with non-damping events (Cease, FIN, DeletePeer+AddPeer), chains of 5-8 errors (doubling, cap, amnesia), active and passive; the hold-down is measured by the absence/presence of dial attempts and by inbound probes 1 ns after the error, mid-way and 1 ns before release, and compared with the reference automaton. Schedules: single-error histories and a protocol error racing with the other connection becoming Established (finds D15, recorded as known finding).",
+   note="trusted: vinstr/vrt virtual clock; refDamp automaton (20 lines)"),
 }
 
 NOT_YET = "check not built yet (framework under construction; see DESIGN.md section 8)"
